@@ -7,6 +7,7 @@ CONSTANTS
   MaxReloads = 0
   TailN = 3
   BumpOnTrim = TRUE
+  StalePrevCount = FALSE
   AllowOlder = FALSE
 SPECIFICATION Spec
 INVARIANTS PublishedIsFilter ShownIsFilter MergerCacheSound ChunkCacheSound Convergence SnapshotIsWindow
